@@ -749,6 +749,16 @@ func c04OverTheByteLimit(c *mon.Ctx) {
 						return
 					}
 					c.Count("over_the_byte_limit_returned")
+					// such an event has the ID every event has: the one its redacted form determines (ninth seeding round, C04-R:
+					// the parser handed it out before the ID had been worked out)
+					var gotID string
+					if site, msg, pan := mon.Guard(func() { gotID = p.EventID() }); pan {
+						c.Failf("untrusted:panic:"+site, "EventID() of an event over the byte limit panics: %s", msg)
+						return
+					}
+					if wantID := ref.EventID(t, tv); gotID != wantID {
+						c.Failf("untrusted:event-id:"+name, "v%s: an event over the byte limit comes back with the event ID %q, its content determines %q", ver, gotID, wantID)
+					}
 					got, _, perr := ref.Parse(p.JSON())
 					if perr != nil {
 						c.Failf("untrusted:json-invalid", "JSON() invalid: %v", perr)
